@@ -258,6 +258,7 @@ impl State {
                     "urank" => format!("V{}", rank(d, a[0], us(a[1]))),
                     "select" => if sym_ok(a[0]) { so(select(d, a[0], us(a[1]))) } else { "N".into() },
                     "uselect" => format!("V{}", select(d, a[0], us(a[1])).unwrap()),
+                    "prefetch" => "OK".into(),
                     "occs" => if sym_ok(a[0]) { format!("S{}", rank(d, a[0], n)) } else { "N".into() },
                     "uoccs" => format!("V{}", rank(d, a[0], n)),
                     "occssmaller" => if sym_ok(a[0]) { format!("S{}", d.iter().filter(|&&x| x < a[0]).count()) } else { "N".into() },
@@ -329,6 +330,8 @@ impl State {
             "uselect0" => format!("V{}", select(d, 0, us(a[0])).unwrap()),
             "getbits" => so(gbits(us(a[0]), us(a[1]))),
             "ugetbits" => format!("V{}", gbits(us(a[0]), us(a[1])).unwrap()),
+            "nlines" => if self.kind == "bv" { format!("V{}", (n + 511) / 512) } else { "X".into() },
+            "prefetch" => if self.kind == "bv" { "OK".into() } else { "X".into() },
             "getword" => match word(us(a[0])) { Some(v) => format!("V{}", v), None => "P".into() },
             "getall" => (0..=n + 1).map(|i| sb(getb(i))).collect::<Vec<_>>().join(","),
             "rank1all" | "rank0all" => {
@@ -516,6 +519,36 @@ pub fn exec_fn(is_impl: bool, t: &[&str]) -> String {
                 let mask = if t[0] == "part4" { 3 } else { 1 };
                 let mut out = vec![];
                 for g in 0..=mask { for &x in vals { if (x >> shift) & mask == g { out.push(x.to_string()); } } }
+                out.join(",")
+            }
+        }
+        "part4c" | "part2c" => {
+            // part4c <width> <shift> <ncodes> c0 l0 c1 l1 .. v...   (codes indexed by symbol value)
+            let a = nums(&t[1..]);
+            let (w, shift, nc) = (a[0], a[1] as usize, a[2] as usize);
+            let codes: Vec<(u32, u32)> = (0..nc).map(|i| (a[3 + 2 * i] as u32, a[4 + 2 * i] as u32)).collect();
+            let vals = &a[3 + 2 * nc..];
+            if is_impl {
+                use qwt::quadwt::huffqwt::PrefixCode;
+                let pcs: Vec<PrefixCode> = codes.iter().map(|&(c, l)| PrefixCode { content: c, len: l }).collect();
+                macro_rules! run { ($ty:ty) => {{
+                    let mut v: Vec<$ty> = vals.iter().map(|&x| x as $ty).collect();
+                    if t[0] == "part4c" { stable_partition_of_4_with_codes(&mut v, shift, &pcs) } else { stable_partition_of_2_with_codes(&mut v, shift, &pcs) }
+                    v.iter().map(|x| x.to_string()).collect::<Vec<_>>().join(",")
+                }}; }
+                guard(|| match w { 8 => run!(u8), 16 => run!(u16), 32 => run!(u32), 64 => run!(u64), 65 => run!(usize), _ => run!(u128) })
+            } else {
+                // symbols whose code ends above this level keep their relative order AFTER the groups of the others
+                let mask: u32 = if t[0] == "part4c" { 3 } else { 1 };
+                if vals.iter().any(|&x| (x as usize) >= nc) { return "P".into(); }
+                let mut out = vec![];
+                for g in 0..=mask {
+                    for &x in vals {
+                        let (c, l) = codes[x as usize];
+                        if l > shift as u32 && (c >> (l - shift as u32)) & mask == g { out.push(x.to_string()); }
+                    }
+                }
+                for &x in vals { if codes[x as usize].1 <= shift as u32 { out.push(x.to_string()); } }
                 out.join(",")
             }
         }
